@@ -37,24 +37,33 @@
 (*  D-CHAR   only space, null, tab, newline, return are written by name;   *)
 (*           every other non-graphic character is written #\uNNNN (>= 4    *)
 (*           lower-case hex digits).  Intended: code comment "escape char  *)
-(*           as #\uNNNN" rvals/cycles.rs:187 and tokens.rs:470; the lexer  *)
-(*           reads the form back (lexer.rs parse_char).                    *)
+(*           as #\uNNNN" rvals/cycles.rs:187, tokens.rs:470; maintainer    *)
+(*           test lexer.rs:1129 test_unicode_escapes reads #\u0540.        *)
 (*  D-STR    in strings, non-graphic characters other than \t \n \r are    *)
 (*           written \u{h..} and NUL is written \0 (Rust's Debug escapes,  *)
 (*           rvals/cycles.rs:155); the lexer has explicit arms for both    *)
-(*           (lexer.rs read_string_escape: '0', 'u' followed by '{').      *)
+(*           (read_string_escape: '0', 'u' + '{'); the same maintainer     *)
+(*           test reads "\u{045}".                                         *)
 (*  D-BYTES  byte vectors are written #u8(#x01 #xFF): two upper-case hex   *)
 (*           digits per byte (rvals/cycles.rs:157-171, explicit format).   *)
 (*  D-PAIR   a pair whose cdr chain does not end in () is written fully    *)
-(*           dotted: (1 . (2 . 3)) (same as Lang.tla D5; cycles.rs:192).   *)
-(* NOT adopted (they stay findings): symbols written without |...|, the    *)
-(* reader's shared residue, -0.0 read as 0.0, `+a` read as two tokens.     *)
+(*           dotted: (1 . (2 . 3)) (same as Lang.tla D5; explicit printer  *)
+(*           arm cycles.rs:192-201; weakest evidence of the five).         *)
+(* NOT adopted - these stay findings (known_findings.d/C12.json): symbols  *)
+(* written without |...|; the reader's buffer shared by all ports; -0.0    *)
+(* read as 0.0; `+a` read as two tokens; #e / #i not read; lambda aliases  *)
+(* read as keywords; unquote renamed under quasiquote; datum labels for    *)
+(* shared lists; literals not delimited by `;`; parser panics.             *)
+(*                                                                         *)
+(* Budget knobs are structural only: tiers choose LEAFSET / NODES / MAXLEN *)
+(* and checks/c12.py samples (seeded) the data with >= 2 quotation forms   *)
+(* and the 5-node data; nothing is selected by looking at an outcome.      *)
 (***************************************************************************)
 EXTENDS Integers, Sequences, TLC, Json, FiniteSets
 
 CONSTANTS MODE,      \* "data" | "strings"
           NODES,     \* data: maximal number of nodes of a datum
-          LEAFSET,   \* data: "full" | "mid" | "core" | "prog"
+          LEAFSET,   \* data: "full" | "mid" | "core" | "prog" | "midq" | "coreq"
           MAXLEN,    \* strings: maximal length
           STRICT     \* TRUE = pure R7RS external representation (no deviation)
 
@@ -420,6 +429,16 @@ MidLeaves ==
     SymT(<<"+","a">>), SymT(<<"q","u","o","t","e">>), SymD(<<955, 120>>), SymT(<<".",".",".">>),
     NilD, BytesD(<<0, 255, 16>>) }
 
+\* quick-tier variants (smaller alphabets, same shape)
+MidQLeaves ==
+  { I(FALSE, <<0>>), I(TRUE, <<5>>), I(FALSE, Big23), RatD(FALSE, <<1>>, <<2>>), DecD(FALSE, <<1>>, <<5>>),
+    DecD(TRUE, <<0>>, <<0>>), BoolD(TRUE), CharD(97), CharD(40), CharD(955),
+    StrD(<< >>), StrT(<<"a"," ","b">>), StrD(<<10, 9, 92, 34>>),
+    SymT(<<"a">>), SymT(<<"a"," ","b">>), SymD(<< >>), SymT(<<"1","2">>), SymT(<<".">>),
+    SymT(<<"+","a">>), SymT(<<"q","u","o","t","e">>), NilD, BytesD(<<0, 255, 16>>) }
+CoreQLeaves ==
+  { I(FALSE, <<1>>), DecD(FALSE, <<1>>, <<5>>), CharD(97), StrT(<<"a"," ","b">>), SymT(<<"a">>), SymT(<<"a"," ","b">>), NilD }
+
 CoreLeaves ==
   { I(FALSE, <<1>>), I(TRUE, <<5>>), DecD(FALSE, <<1>>, <<5>>), BoolD(TRUE), CharD(97), CharD(41),
     StrT(<<"a"," ","b">>), SymT(<<"a">>), SymT(<<"a"," ","b">>), NilD }
@@ -431,6 +450,7 @@ ProgLeaves ==
 
 Leaves == CASE LEAFSET = "full" -> FullLeaves [] LEAFSET = "mid" -> MidLeaves
             [] LEAFSET = "core" -> CoreLeaves [] LEAFSET = "prog" -> ProgLeaves
+            [] LEAFSET = "midq" -> MidQLeaves [] LEAFSET = "coreq" -> CoreQLeaves
 
 -----------------------------------------------------------------------------
 (* The data builder.                                                       *)
